@@ -260,30 +260,55 @@ def r2_multi_run(chk, repo):
         chk.check(("ignore_errors", False) in cfg.guard_facts(n), "C15.R2", f, n.stmt, "failure is raised although errors are to be ignored", site_text="multi_run: raise only if not ignore_errors", nontrivial=False)
     cont = [n for n in cfg.stmt_nodes() if isinstance(n.stmt, ast.Continue) and ("ignore_errors", True) in cfg.guard_facts(n) and any(t.endswith(".exception() is not None") and p for t, p in cfg.guard_facts(n))]
     chk.check(bool(cont), "C15.R2", f, None, "with ignore_errors a failing run is not skipped", site_text="multi_run: ignore_errors -> continue")
-    # ordering
+    # ordering: the returned list is rebuilt in stable_argsort order of the recorded run ids
+    from ..pattern import find as pfind, pmatch
     rets = [n for n in cfg.stmt_nodes() if isinstance(n.stmt, ast.Return) and n.stmt.value is not None and not (isinstance(n.stmt.value, ast.Constant))]
     chk.floor("C15.R2", "result returns in multi_run", len(rets), 1)
-    from ..rules import prov_at
+    FR = RO = None
     for n in rets:
-        p = prov_at(f, n, n.stmt.value)
-        chk.check("call:stable_argsort" in p and "run_id_output" in p, "C15.R2", f, n.stmt, "results are not reordered by run id before being returned (thread completion order leaks out)", site_text="multi_run: final_result ordered by stable_argsort(run_id_output)")
+        okr = False
+        if isinstance(n.stmt.value, ast.Name):
+            for st, b in pfind(f.node, f"{n.stmt.value.id} = [{n.stmt.value.id}[L_i] for L_i in stable_argsort(L_ro)]"):
+                if any(x in cfg.dominators("n")[n] for x in cfg.nodes_of(st)):
+                    okr = True
+                    FR, RO = n.stmt.value.id, b["L_ro"]
+        chk.check(okr, "C15.R2", f, n.stmt, "results are not reordered by run id before being returned (thread completion order leaks out)", site_text="multi_run: results ordered by stable_argsort(recorded run ids)")
     # run id column and bookkeeping
-    pops = [v for v, s, how in defs.defs.get("_run_id", []) if v is not None]
-    chk.check(bool(pops) and all(isinstance(v, ast.Call) and norm(v.func) == "futures.pop" for v in pops), "C15.R2", f, None, "the run id attached to a result is not the one the finished future was submitted for", site_text="multi_run: _run_id = futures.pop(f)")
-    ids = [v for v, s, how in defs.defs.get("ids", []) if v is not None]
-    chk.check(bool(ids) and all("_run_id" in norm(v) and "len(result)" in norm(v) for v in ids), "C15.R2", f, None, "run-id column is not built from the future's run id for every row", site_text="multi_run: ids = [_run_id] * len(result)")
-    a1 = [n for n in cfg.stmt_nodes() if not isinstance(n.stmt, COMPOUND) and node_calls(n, lambda c, nm: nm == "final_result.append")]
-    a2 = [n for n in cfg.stmt_nodes() if not isinstance(n.stmt, COMPOUND) and node_calls(n, lambda c, nm: nm == "run_id_output.append")]
-    ok = bool(a1) and bool(a2) and all(enclosing(x.stmt, (ast.For, ast.If)) is enclosing(y.stmt, (ast.For, ast.If)) for x in a1 for y in a2)
-    chk.check(ok, "C15.R2", f, None, "results and their run ids are not recorded together (the sort permutation would not match)", site_text="multi_run: final_result and run_id_output appended together")
-    for y in a2:
-        c = [c for c in own_calls(y.stmt) if call_name(c) == "run_id_output.append"][0]
-        chk.check(norm(c.args[0]) == "_run_id", "C15.R2", f, y.stmt, "run_id_output does not record the future's run id", site_text="multi_run: run_id_output.append(_run_id)")
-    # submissions use the run id as first argument and key the future by it
+    a2 = [c for c in calls_in(f.node) if RO and norm(c.func) == f"{RO}.append"]
+    a1 = [c for c in calls_in(f.node) if FR and norm(c.func) == f"{FR}.append"]
+    ok = bool(a1) and bool(a2) and all(enclosing(x, (ast.For, ast.If)) is enclosing(y, (ast.For, ast.If)) for x in a1 for y in a2)
+    chk.check(ok, "C15.R2", f, None, "results and their run ids are not recorded together (the sort permutation would not match)", site_text="multi_run: result and run id appended together")
+    RID = norm(a2[0].args[0]) if a2 and isinstance(a2[0].args[0], ast.Name) else None
+    pops = [b for st, b in pfind(f.node, f"{RID} = L_futs.pop(L_f)")] if RID else []
+    okp = False
+    for b in pops:
+        lp = [x for x in walk_body(f.node) if isinstance(x, ast.For) and norm(x.target) == b["L_f"]]
+        if lp:
+            okp = True
+            FUTS, FV = b["L_futs"], b["L_f"]
+    chk.check(okp, "C15.R2", f, None, "the run id attached to a result is not the one the finished future was submitted for", site_text="multi_run: run id = futures.pop(finished future)")
+    idsok = False
+    for st, b in pfind(f.node, f"L_ids = np.array([{RID}] * len(L_res), dtype=E_dt)") if RID else []:
+        if pfind(f.node, f"{b['L_res']} = merge_arrs([{b['L_ids']}, {b['L_res']}])") and pfind(f.node, f"{b['L_res']} = {FV}.result()"):
+            idsok = True
+    chk.check(idsok, "C15.R2", f, None, "run-id column is not built from the future's run id for every row of its result", site_text="multi_run: ids = [run id] * len(result), merged into the result")
+    # submissions: exec_function(run id, ...) keyed by that run id
     subs = [c for c in calls_in(f.node) if isinstance(c.func, ast.Attribute) and c.func.attr == "submit"]
     chk.floor("C15.R2", "submit sites in multi_run", len(subs), 2)
     for c in subs:
-        chk.check(len(c.args) >= 2 and norm(c.args[0]) == "exec_function" and norm(c.args[1]) == "r", "C15.R2", f, stmt_of(c), "worker is not submitted as exec_function(run_id, ...)", site_text="multi_run: submit(exec_function, r, ...)")
+        ok1 = len(c.args) >= 2 and norm(c.args[0]) == "exec_function" and isinstance(c.args[1], ast.Name)
+        keyed = False
+        if ok1:
+            r_ = c.args[1].id
+            par = getattr(c, "_parent", None)
+            if isinstance(par, ast.DictComp) and norm(par.value) == r_ and any(norm(g.target) == r_ for g in par.generators):
+                keyed = True
+            st = stmt_of(c)
+            if isinstance(st, ast.Assign) and isinstance(st.targets[0], ast.Name):
+                fut = st.targets[0].id
+                if okp and pfind(f.node, f"{FUTS}[{fut}] = {r_}"):
+                    keyed = True
+        chk.check(ok1 and keyed, "C15.R2", f, stmt_of(c), "worker is not submitted as exec_function(run_id, ...) and remembered under that run id", site_text="multi_run: futures[submit(exec_function, r, ...)] = r")
 
 
 WITNESSES = [
